@@ -208,6 +208,11 @@ def correspond(ctx, corr, model_ok):
     corr.count('blocked writer: control frame queued behind a partly written fragmented frame', 24)
     corr.oracle_failures.extend(collector_oracle())
     corr.count('AwaitableRSocket collector at a credit-window boundary', 48)
+    corr.oracle_failures.extend(reconnect_wire_oracle())
+    corr.count('reconnecting client with local producers in flight: wire of the new connection', 18)
+    from harness.props import c20
+    corr.oracle_failures.extend(c20.take_oracle())
+    corr.count('Rx stream requester behind take(k): frames written after the terminal frame was received', 66)
     if model_ok:
         E.trace_corr(corr, runs, KEEP, KEYS, 'C08 emitted frames vs model/Endpoint.v')
     corr.rule = ('legal random histories of 4..20 actions (half of the local cancels race an incoming frame); every queued '
@@ -230,6 +235,9 @@ def search(ctx, budget):
             found.extend(setup_oracle(case))
         found.extend(gated_oracle())
         found.extend(collector_oracle())
+        found.extend(reconnect_wire_oracle())
+        from harness.props import c20
+        found.extend(c20.take_oracle())
     return found
 
 
@@ -243,6 +251,11 @@ def replay(obj):
         return bool(gated_oracle())
     if 'collector_case' in case:
         return bool(collector_oracle())
+    if 'reconnect_wire_case' in case:
+        return bool(reconnect_wire_oracle())
+    if 'rx_case' in case:
+        from harness.props import c20
+        return bool(c20.oracle(c20.run_case(case['rx_case'])))
     runs, crashed = E.run_all([case['scenario']])
     return bool(crashed) or any(oracle(sc) or wire_oracle(sc) for sc in runs)
 
@@ -389,4 +402,128 @@ def collector_oracle():
                             elif d == 'out' and peer_done and kind == 'rc' and fr['t'] == 'RequestN':
                                 out.append({'what': 'requests-more-after-the-peer-completed', 'collector_case': case})
                                 break
+    return out
+
+
+# ---------------------------------------------------------------------------------------------
+# a reconnecting client: what it writes on the NEW connection must be legal for that connection — SETUP first, and on every
+# stream a request frame before anything else; producers that belonged to interactions of the old connection must be silent
+
+def run_reconnect_wire(kind, source, cause, lenreq):
+    """client with interactions in flight whose LOCAL side keeps producing (a channel requester's publisher fed by a library
+    source with plenty of credit; as responder, a stream publisher with credit); the connection is lost; on_close reconnects."""
+    import asyncio
+    from datetime import timedelta
+    from harness import sim, frames as FR
+    from rsocket.rsocket_client import RSocketClient
+    from rsocket.request_handler import BaseRequestHandler
+    from rsocket.payload import Payload
+    from reactivestreams.subscriber import DefaultSubscriber
+    loop = sim.new_loop()
+    sim.patch_clock(loop)
+    T = sim.make_transport_class()
+    ts = [T(lenreq=lenreq, name='a'), T(lenreq=lenreq, name='b')]
+
+    async def provider():
+        for x in ts:
+            yield x
+
+    def make_source():
+        if source == 'gen':
+            from rsocket.streams.stream_from_generator import StreamFromGenerator
+
+            def g():
+                for i in range(100000):
+                    yield Payload(b'e%d' % i), False
+            return StreamFromGenerator(g)
+        from rsocket.streams.stream_from_async_generator import StreamFromAsyncGenerator
+
+        async def g():
+            for i in range(100000):
+                yield Payload(b'e%d' % i), False
+                await asyncio.sleep(0.01)
+        return StreamFromAsyncGenerator(g)
+
+    class H(BaseRequestHandler):
+        async def request_stream(self, payload):
+            return make_source()
+
+        async def request_channel(self, payload):
+            return make_source(), DefaultSubscriber()
+
+        async def on_close(self, rsocket, exception=None):
+            await rsocket.reconnect()
+    box = {}
+    try:
+        def mk():
+            box['c'] = RSocketClient(provider(), handler_factory=H, keep_alive_period=timedelta(seconds=1000),
+                                     max_lifetime_period=timedelta(seconds=5000))
+            asyncio.create_task(box['c'].connect())
+        loop.run(mk)
+        loop.settle()
+        c = box['c']
+        if kind == 'channel-requester':
+            loop.run(lambda: c.request_channel(Payload(b'req'), make_source()).subscribe(DefaultSubscriber()))
+            for _ in range(5):
+                loop.tick()
+            ts[0].inject_frame(FR.build({'t': 'RequestN', 'sid': 1, 'ign': False, 'n': 0x7FFFFFFF}).serialize())
+        elif kind == 'stream-responder':
+            ts[0].inject_frame(FR.build({'t': 'RequestStream', 'sid': 2, 'ign': False, 'follows': False, 'n': 0x7FFFFFFF,
+                                         'md': b'', 'd': b'x'}).serialize())
+        else:
+            ts[0].inject_frame(FR.build({'t': 'RequestChannel', 'sid': 2, 'ign': False, 'follows': False, 'complete': False,
+                                         'n': 0x7FFFFFFF, 'md': b'', 'd': b'x'}).serialize())
+        def spin(k):
+            # a producer with unbounded credit never lets the loop settle: a fixed number of iterations, time moving on
+            for _ in range(k):
+                loop.tick()
+                loop.advance(0.004)
+        spin(40)
+        produced_before = len(ts[0].sent)
+        if cause == 'eof':
+            ts[0].inject_eof()
+        elif cause == 'error':
+            ts[0].inject_error()
+        else:
+            loop.run(lambda: asyncio.create_task(c.reconnect()))
+        spin(120)
+        new = [sim.parse_sent(b) for b in ts[1].sent]
+        return {'new': new, 'produced_before': produced_before, 'reconnected': ts[1].connected}
+    finally:
+        loop.finish()
+
+
+REQUEST_FRAMES = ('RequestResponse', 'RequestFnf', 'RequestStream', 'RequestChannel')
+
+
+def connection_wire_problems(frames):
+    """frames written by a client on one connection, judged on their own (nothing was received on it)"""
+    out = []
+    if not frames or frames[0]['t'] != 'Setup':
+        out.append('first frame is %s, not SETUP' % (frames[0]['t'] if frames else 'nothing'))
+    opened = set()
+    for f in frames[1:]:
+        if f['t'] == 'Setup':
+            out.append('second SETUP')
+        if f['sid'] == 0:
+            continue
+        if f['t'] in REQUEST_FRAMES:
+            opened.add(f['sid'])
+        elif f['sid'] not in opened:
+            out.append('%s on stream %d, which was never opened on this connection' % (f['t'], f['sid']))
+    return out
+
+
+def reconnect_wire_oracle():
+    out = []
+    for kind in ('channel-requester', 'stream-responder', 'channel-responder'):
+        for source in ('gen', 'agen'):
+            for cause in ('eof', 'error', 'explicit'):
+                r = run_reconnect_wire(kind, source, cause, True)
+                bad = connection_wire_problems(r['new']) if r['reconnected'] else ['did not reconnect']
+                if r['produced_before'] < 3:
+                    bad.append('scenario did not produce before the loss (%d frames)' % r['produced_before'])
+                if bad:
+                    out.append({'what': 'illegal frames on the connection after a reconnect: ' + '; '.join(bad[:3]),
+                                'reconnect_wire_case': [kind, source, cause], 'first_frames': repr(r['new'][:4])[:300]})
     return out
